@@ -490,6 +490,7 @@ ASMJIT_FAVOR_SIZE Error init_func_detail(FuncDetail& func, const FuncSignature& 
             // passed indirectly, the address can be passed via register, if the argument's index has GP one.
             if (TypeUtils::is_float(type_id)) {
               arg.assign_stack_offset(int32_t(stack_offset));
+              stack_offset += 8;
             }
             else {
               uint32_t gp_reg_id = Reg::kIdBad;
@@ -501,13 +502,13 @@ ASMJIT_FAVOR_SIZE Error init_func_detail(FuncDetail& func, const FuncSignature& 
                 arg.assign_reg_data(RegType::kGp64, gp_reg_id);
               }
               else {
+                // Always 8 bytes (pointer).
                 arg.assign_stack_offset(int32_t(stack_offset));
+                stack_offset += 8;
               }
               arg.add_flags(FuncValue::kFlagIsIndirect);
             }
 
-            // Always 8 bytes (float/double/pointer).
-            stack_offset += 8;
             continue;
           }
         }
